@@ -279,6 +279,41 @@ func c10SubscribeRace(w *ndWriter, goroutines, each int) {
 	r.finish(w, "ok")
 }
 
+// list changes racing with list changes (no Publish in progress): over a long subscriber list (the copy inside Unsubscribe
+// takes long enough for another change to complete meanwhile) some goroutines subscribe, others unsubscribe distinct
+// subscriptions; a Publish afterwards must reach exactly the subscriptions that are still registered.
+func c10ChurnRace(w *ndWriter, base, goroutines, each int) {
+	r := newC10(false, false)
+	r.name("main")
+	for i := 0; i < base; i++ {
+		r.subscribe()
+	}
+	var start int32
+	var wg sync.WaitGroup
+	for g := 0; g < goroutines; g++ {
+		wg.Add(1)
+		go func(g int) {
+			defer wg.Done()
+			r.name(fmt.Sprintf("t%d", g+1))
+			for atomic.LoadInt32(&start) == 0 {
+			}
+			for i := 0; i < each; i++ {
+				if g%2 == 0 {
+					r.subscribe()
+				} else {
+					r.unsubscribe(1 + (g/2)*each + i) // distinct base subscriptions per goroutine
+				}
+			}
+		}(g)
+	}
+	time.Sleep(30 * time.Microsecond)
+	atomic.StoreInt32(&start, 1)
+	wg.Wait()
+	r.name("main")
+	r.publish(1, 100)
+	r.finish(w, "ok")
+}
+
 func c10Main(args []string) error {
 	switch args[0] {
 	case "record":
@@ -318,6 +353,10 @@ func c10Main(args []string) error {
 			c10Stress(w, rng, 1+rng.Intn(4), 1+rng.Intn(4), i%4 == 1, i%4 == 2)
 			c10SubscribeRace(w, 8, 3)
 			runs += 2
+			if i%4 == 0 {
+				c10ChurnRace(w, 400, 6, 12)
+				runs++
+			}
 		}
 		fmt.Printf("{\"runs\":%d}\n", runs)
 		return nil
